@@ -901,7 +901,7 @@ func main() {
 			rn.run(in)
 		}
 		for _, l := range []int{65535, 65536} {
-			if thorough || (mode == modeOriginal && l == 65535) || (mode == modeEIP155 && l == 65536) || (mode == modeEIP1559 && l == 65536) || (mode == modeAuto && l == 65535) {
+			if thorough || (mode == modeEIP155 && l == 65535) || (mode == modeEIP1559 && l == 65536) {
 				in = baseInput(mode, 1, stdKey, "data length 64KiB threshold")
 				in.Data = &jsonDSL{RepB: 0x62, RepN: l}
 				rn.run(in)
@@ -1031,7 +1031,7 @@ func main() {
 	}
 
 	// --- 8. random transactions ---
-	nRand := 260
+	nRand := 200
 	if thorough {
 		nRand = 3000
 	}
